@@ -121,24 +121,40 @@ theorem windows_dot_entry_is_ValueError :
     parseListLine (fun _ => .error .ValueError) (fun _ => .ok "D".toList)
       (encodeUtf8 "01/02/2020  10:00 AM <DIR> .".toList) = .error .ValueError := by decide
 
-/-- **list() on an MLSD line without a `type` fact raises KeyError** — not ValueError: `parse_mlsx_line`
-    accepts the line, `__anext__` then evaluates `info["type"]`.  Negative witness for "listing lines
-    always fail with the documented ValueError" at the `Client.list` level (defect on the pinned tree). -/
-theorem mlsd_line_without_type_is_KeyError :
-    listStep parseMlsxLineBytes ⟨0, []⟩ (encodeUtf8 "Size=1; x\r\n".toList) = .error .KeyError := by decide
+/-- obligation over the regenerated source: `Client.list` reads the entry's `type` fact with
+    `info.get("type")`, not with the subscript `info["type"]` -/
+theorem fact_list_type_read_is_total : Generated.listTypeLookupRaises = false := by decide
 
-/-- the exceptions of a whole listing are the parser's or KeyError -/
+/-- **list_line_exceptions_are_ValueError (MLSD).**  Whatever lines an MLSD data stream carries, `Client.list`
+    yields entries or raises UnicodeDecodeError (a ValueError: an undecodable line) - nothing else; in
+    particular a line without a `type` fact is yielded, not answered with KeyError. -/
+theorem list_classes_MLSD (path : PPath) (ls : List RawLine) :
+    ErrIn (· = .UnicodeDecodeError) (listLines parseMlsxLineBytes path ls) :=
+  listLines_errs parseMlsxLineBytes path mlsx_line_classes
+    (fun h => absurd (fact_list_type_read_is_total ▸ h) (by decide)) ls
+
+/-- an MLSD line without a `type` fact is yielded with the facts it has -/
+theorem mlsd_line_without_type_is_yielded :
+    listStep parseMlsxLineBytes ⟨0, []⟩ (encodeUtf8 "Size=1; x\r\n".toList) =
+      .ok (some (⟨0, ["x".toList]⟩, [("size".toList, "1".toList)])) := by decide
+
+/-- on the pinned tree (`info["type"]`) the same line made `list()` raise KeyError - not the documented
+    ValueError: the defect that was repaired (witness kept on the parameterised model) -/
+theorem old_mlsd_line_without_type_is_KeyError :
+    listStepWith true parseMlsxLineBytes ⟨0, []⟩ (encodeUtf8 "Size=1; x\r\n".toList) = .error .KeyError := by decide
+
+/-- **list_line_exceptions_are_ValueError (LIST).**  the exceptions of a whole LIST listing are ValueError only -/
 theorem list_classes_LIST (lsDate winDate : Str → Except PyErr Str)
     (hl : DateOracleOK lsDate) (hw : DateOracleOK winDate) (path : PPath) (ls : List RawLine) :
-    ErrIn (fun e => e = .ValueError ∨ e = .KeyError) (listLines (parseListLine lsDate winDate) path ls) := by
+    ErrIn (fun e => e = .ValueError) (listLines (parseListLine lsDate winDate) path ls) := by
   apply listLines_errs
   · intro l e he
     rcases list_line_error_is_ValueError lsDate winDate hl hw l with ⟨r, hr⟩ | hr
     · rw [hr] at he; cases he
-    · rw [hr] at he; cases he; exact Or.inl rfl
-  · exact Or.inr rfl
+    · rw [hr] at he; cases he; rfl
+  · exact fun h => absurd (fact_list_type_read_is_total ▸ h) (by decide)
 
-/-- with the LIST parsers the KeyError branch is dead: both always set `type` -/
+/-- with the LIST parsers a KeyError branch would be dead anyway: both always set `type` -/
 theorem list_entry_has_type_unix (lsDate : Str → Except PyErr Str) (s : Str) (r : ListEntry)
     (h : parseListLineUnixStr lsDate s = .ok r) : ∃ v, dictGet r.2 "type".toList = .ok v := by
   unfold parseListLineUnixStr at h
